@@ -156,6 +156,9 @@ bool parse_range(const char *arg, std::vector<size_t> &indices) {
 	if (!(sin >> start))
 		return false;
 
+	UTIL_THROW_IF(start == 0, util::Exception, "Cannot understand " << arg
+		<< ": document indices start at 1.\n");
+
 	// Was that all? Done!
 	if (sin.peek() == EOF) {
 		indices.push_back(start);
@@ -234,6 +237,7 @@ int main(int argc, char **argv) {
 	// Sort the indices from small to large so in decode() and encode() we can
 	// more easily check whether the document is in the range.
 	std::sort(indices.begin(), indices.end());
+	indices.erase(std::unique(indices.begin(), indices.end()), indices.end());
 
 	// If no files are passed in, read from stdin
 	if (files.empty())
